@@ -664,6 +664,18 @@ def run_toggles(unit, tier, acc):
                     break
                 if not same(row.cmp, want, got2):
                     acc.violation("reopen-after-switch:" + row.id, "%s = %s (assigned after %s was switched off and on through the kept %s) reads %s after save and re-open" % (row.id, short(v2), wit["switch"], wit["kept"], short(got2)), wit)
+            if not by_fill:
+                # "an assignment leaves other independent properties unchanged": the switch assigned the value it HAS (True while
+                # the child is there) is no reason for the child to lose what was set on it
+                try:
+                    setattr(parent, toggle, True)
+                    got3 = read(row, eval("x." + rest, {"x": parent}))  # noqa: S307
+                except Exception as e:  # noqa
+                    acc.count("toggle_reassert_not_applicable:%s" % type(e).__name__)
+                    break
+                acc.count("toggle_switches_reasserted")
+                if not same(row.cmp, want, got3):
+                    acc.violation("readback-after-switch-reasserted:" + row.id, "%s = %s; then %s.%s = True (which it was already): the property reads %s" % (row.id, short(v2), wit["kept"], toggle, short(got3)), dict(wit, mode="toggle-reassert"))
             break
 
 
